@@ -160,6 +160,22 @@ func (fi *FuncInfo) paramLeaf(prm *ssa.Parameter) string {
 	prefix := ""
 	if fn.Parent() != nil {
 		prefix = "λ"
+		// `go func(r *Raft){…}(r)`: the literal's parameter is the parent's
+		// (immutable) parameter under another name
+		if idx >= 0 {
+			if pp, ok := fi.P.spawnArg(fn, idx).(*ssa.Parameter); ok && pp.Parent() == fn.Parent() {
+				return fi.P.Info(fn.Parent()).paramLeaf(pp)
+			}
+		}
+	}
+	if fn.Parent() != nil && idx >= 0 {
+		// a literal that is invoked where it is written (`go func(ch …){…}(x)`):
+		// the parameter is a name for the argument it is started with
+		if arg := fi.P.spawnArg(fn, idx); arg != nil {
+			if pe := fi.P.Info(fn.Parent()).Sym(arg); pe != nil && pe.Op != "opaque" {
+				return "λ:" + pe.String()
+			}
+		}
 	}
 	if n := namedOf(prm.Type()); n != nil {
 		if _, ok := n.Underlying().(*types.Struct); ok {
@@ -175,6 +191,55 @@ func (fi *FuncInfo) paramLeaf(prm *ssa.Parameter) string {
 		}
 	}
 	return fmt.Sprintf("%s$%d", prefix, idx)
+}
+
+// spawnArg: closure fn is used exactly once, as the function of a call, go or
+// defer instruction of its parent; returns that call's idx-th argument.
+func (p *Program) spawnArg(fn *ssa.Function, idx int) ssa.Value {
+	par := fn.Parent()
+	if par == nil {
+		return nil
+	}
+	var site ssa.CallInstruction
+	n := 0
+	for _, b := range par.Blocks {
+		for _, in := range b.Instrs {
+			// every mention of fn in the parent
+			for _, op := range in.Operands(nil) {
+				if op == nil || *op == nil {
+					continue
+				}
+				v := *op
+				if mc, ok := v.(*ssa.MakeClosure); ok {
+					_ = mc
+					continue // counted at the MakeClosure's own users below
+				}
+				if f, ok := v.(*ssa.Function); ok && f == fn {
+					n++
+					if ci, isCall := in.(ssa.CallInstruction); isCall && ci.Common().Value == v {
+						site = ci
+					} else if _, isMC := in.(*ssa.MakeClosure); isMC {
+						n-- // the closure object: look at its users
+					}
+				}
+			}
+			if mc, ok := in.(*ssa.MakeClosure); ok && mc.Fn == ssa.Value(fn) {
+				for _, r := range *mc.Referrers() {
+					if _, isDbg := r.(*ssa.DebugRef); isDbg {
+						continue
+					}
+					n++
+					if ci, isCall := r.(ssa.CallInstruction); isCall && ci.Common().Value == ssa.Value(mc) {
+						site = ci
+					}
+				}
+			}
+		}
+	}
+	if n != 1 || site == nil || idx >= len(site.Common().Args) {
+		return nil
+	}
+	return site.Common().Args[idx]
 }
 
 type symCtx struct {
@@ -235,6 +300,12 @@ func (c *symCtx) sym(v ssa.Value, guard int) *Expr {
 	case *ssa.FreeVar:
 		if fi.bind != nil {
 			if b, ok := fi.bind[v]; ok && fi.par != nil {
+				if al, isCell := b.(*ssa.Alloc); isCell {
+					// a captured cell is read after the closure was created
+					if mc := fi.madeAt(); mc != nil {
+						return (&symCtx{fi: fi.par, at: mc}).sym(al, guard+1)
+					}
+				}
 				return fi.par.Sym(b)
 			}
 		}
@@ -899,6 +970,12 @@ func (c *symCtx) copyLocal(a *ssa.Alloc) (ssa.Value, bool) {
 	if st == nil {
 		return nil, false
 	}
+	// a closure that captures the cell must be created after the assignment
+	for _, r := range *refs {
+		if mc, ok := r.(*ssa.MakeClosure); ok && !Dominates(st, mc) {
+			return nil, false
+		}
+	}
 	switch st.Val.(type) {
 	case *ssa.MakeChan, *ssa.MakeMap, *ssa.MakeSlice, *ssa.MakeClosure:
 		// an object created here: the variable is its name
@@ -963,4 +1040,26 @@ func blockForward(al *ssa.Alloc, ld *ssa.UnOp) ssa.Value {
 		}
 	}
 	return nil
+}
+
+// madeAt: the MakeClosure instruction (in the parent) that creates fi.Fn, when
+// there is exactly one.
+func (fi *FuncInfo) madeAt() ssa.Instruction {
+	if fi.par == nil {
+		return nil
+	}
+	var mc ssa.Instruction
+	n := 0
+	for _, b := range fi.par.Fn.Blocks {
+		for _, in := range b.Instrs {
+			if m, ok := in.(*ssa.MakeClosure); ok && m.Fn == ssa.Value(fi.Fn) {
+				mc = in
+				n++
+			}
+		}
+	}
+	if n != 1 {
+		return nil
+	}
+	return mc
 }
